@@ -107,7 +107,16 @@ func c04Gen(r *Rand, tier string) interface{} {
 	in.DstPre = map[string]string{}
 	for _, p := range sortedNamesS(in.Tree.Files) { // sorted: the draws must not depend on map order
 		if r.Chance(1, 3) {
-			in.DstPre[p] = "PRE-EXISTING-LONGER-" + in.Tree.Files[p] + "-TAIL"
+			src := in.Tree.Files[p]
+			switch r.Intn(3) {
+			case 0:
+				in.DstPre[p] = "PRE-EXISTING-LONGER-" + src + "-TAIL"
+			case 1:
+				// same length, other bytes: size alone must not make the copy look done
+				in.DstPre[p] = strings.Repeat("~", len(src))
+			default:
+				in.DstPre[p] = "P"
+			}
 		}
 	}
 	in.Helper = []string{"Copy", "Copy", "Copier", "StreamCopy"}[r.Intn(4)]
@@ -493,7 +502,7 @@ func init() {
 		New:    func() interface{} { return &c04In{} },
 		Run:    c04Run,
 		Shrink: c04Shrink,
-		Rule: "one case = stream shape (backend x prior state absent/shorter/equal/longer x content x chunking x read buffers x legal short reads) or copy shape (source backend x destination backend over memory, disk, encrypted with both ciphers, cache; tree <=8 nodes, files up to 4 KiB, destination pre-populated with longer files; helper StreamCopy/Copier/Copy); for a copy a fault-free dry run counts the I/O positions on both sides and then every position (every k-th above 80) x applicable kind (op-error, read-error, write-error, torn-write, close-error; fault layer above the stack or below the encryption) is injected once under the dry run's schedule; tree copies run the real fsloop under the seeded scheduler; " +
+		Rule: "one case = stream shape (backend x prior state absent/shorter/equal/longer x content x chunking x read buffers x legal short reads) or copy shape (source backend x destination backend over memory, disk, encrypted with both ciphers, cache; tree <=8 nodes, files up to 4 KiB, destination pre-populated with longer, equally long and shorter files; helper StreamCopy/Copier/Copy); for a copy a fault-free dry run counts the I/O positions on both sides and then every position (every k-th above 80) x applicable kind (op-error, read-error, write-error, torn-write, close-error; fault layer above the stack or below the encryption) is injected once under the dry run's schedule; tree copies run the real fsloop under the seeded scheduler; " +
 			"every case is non-trivial; distinct = distinct input",
 		Real:        []string{"filesystem/fshelper (StreamCopy, Copier, Copy)", "filesystem/fsloop + workers/jobsync", "memfs", "diskfs on a private directory of the real file system", "encryptfs with aesgcm256cfs and extcfs", "fscache"},
 		Stub:        []string{"FaultFS wrappers", "sync primitives, scheduler, clock (simrt)", "crypto/rand nonces are real (no oracle depends on their value)"},
